@@ -6,7 +6,7 @@ use crate::ctx::{guarded, show, Ctx};
 use crate::obs::*;
 use crate::rng::{Rng, H};
 use crate::runner::PropSpec;
-use crate::sources::{block_on, ShortSink};
+use crate::sources::{block_on, FailOnceSink, ShortSink};
 use quick_xml::events::attributes::Attribute;
 use quick_xml::events::{BytesCData, BytesDecl, BytesEnd, BytesPI, BytesStart, BytesText, Event};
 use quick_xml::name::QName;
@@ -21,7 +21,7 @@ pub const SPEC: PropSpec = PropSpec {
     level: "exploration",
     rule: "Cases = sequences of builder calls (BytesStart::new / from_content followed by any edits push_attribute with (&str,&str) / (&str,Cow) / pre-escaped (&[u8],&[u8]) / Attribute, extend_attributes, with_attributes, clear_attributes, set_name; to_end; BytesEnd::new; BytesText::new and from_escaped; BytesCData::escaped (all pieces) and BytesCData::new for ']]>'-free content; comments via BytesText::new; BytesPI::new; BytesDecl::new over version x encoding x standalone; DocType; write_bom first; create_element(..).with_attribute(s)..write_{text,cdata,pi}_content / write_empty / write_inner_content) with payload strings from a hostile pool (both quotes, '<', '>', '&', ']]>', ']]]]>>', '--', '?>', leading/trailing/inner whitespace incl. TAB/LF/CR, entity look-alikes, NUL, non-ASCII, long strings). Every sequence is written through Writer::write_event, write_event_async, the ElementWriter sync methods and the ElementWriter async methods; the byte strings must be equal; element-builder calls are additionally written on an indenting writer with new_line() between attributes and must read back with the same name, attributes and content. The bytes are read back under the neutral configuration and compared with the model of the calls (adjacent texts coalesced, empty texts dropped, adjacent CDATA pieces coalesced): element and attribute names, unescaped attribute values, unescaped text and comment content, raw CDATA / PI content, declaration fields. Exhaustive over a 16-kind call alphabet up to length 3 (payloads chosen per position by the seed); random sequences up to length 6/12. Non-trivial = at least one payload contains a markup-significant character or an edit was applied between construction and writing.",
     assumptions: &["documented preconditions are respected by the generator: names are XML names, comment content has no '--' and does not end in '-', PI content has no '?>' and its target is not 'xml', BytesCData::new content has no ']]>', pre-escaped values are produced by escape(), attribute keys are unique per element, declared encodings are UTF-8"],
-    required: &["sink_short_write_calls", "calls.StartNew", "calls.StartFromContent", "calls.End", "calls.Empty", "calls.TextNew", "calls.TextFromEscaped", "calls.CDataEscaped", "calls.CDataNew", "calls.Comment", "calls.PI", "calls.Decl", "calls.ElemText", "calls.ElemCData", "calls.ElemPI", "calls.ElemEmpty", "calls.ElemInner", "edits.SetName", "edits.Clear", "edits.PushBytes", "edits.Extend", "edits.With", "cdata_splits", "async_bytes_compared", "attr_values_compared", "builder_indented_with_new_line"],
+    required: &["sink_short_write_calls", "sink_failures_survived", "calls.StartNew", "calls.StartFromContent", "calls.End", "calls.Empty", "calls.TextNew", "calls.TextFromEscaped", "calls.CDataEscaped", "calls.CDataNew", "calls.Comment", "calls.PI", "calls.Decl", "calls.ElemText", "calls.ElemCData", "calls.ElemPI", "calls.ElemEmpty", "calls.ElemInner", "edits.SetName", "edits.Clear", "edits.PushBytes", "edits.Extend", "edits.With", "cdata_splits", "async_bytes_compared", "attr_values_compared", "builder_indented_with_new_line"],
     run,
     replay,
     thorough_layers: &[],
@@ -416,6 +416,7 @@ pub struct Local {
     texts: u64,
     bytes_written: u64,
     short_writes: u64,
+    sink_failures: u64,
     builder_newlines: u64,
 }
 
@@ -571,6 +572,45 @@ pub fn check(calls: &[Call], loc: &mut Local) -> Result<(), String> {
         }
         if sa.out != b1 {
             return Err(format!("write_event_async into a sink taking {} byte(s) per poll_write produced {:?} but a Vec sink received {:?}", max, show(&sa.out), show(&b1)));
+        }
+    }
+    // path 2c: a sink that refuses one write call. The event being written fails; every event written
+    // after that must still come out as its own bytes (nothing of the failed event is sent later).
+    if !bom && !evs.is_empty() {
+        let k = (b1.len() as u64 * 7 + evs.len() as u64) % (2 * evs.len() as u64 + 3);
+        let mut wf = Writer::new(FailOnceSink::new(k));
+        let mut failed_at: Option<(usize, usize)> = None;
+        for (i, e) in evs.iter().enumerate() {
+            let res = wf.write_event(e.borrow());
+            if res.is_err() && failed_at.is_none() {
+                failed_at = Some((i, wf.get_ref().out.len()));
+            } else if let Err(x) = res {
+                return Err(format!("write_event failed a second time although the sink failed once: {}", x));
+            }
+        }
+        let sink = wf.into_inner();
+        match failed_at {
+            None => {
+                if sink.out != b1 {
+                    return Err(format!("a sink that never failed received {:?} instead of {:?}", show(&sink.out), show(&b1)));
+                }
+            }
+            Some((i, len_then)) => {
+                let mut fresh = Writer::new(Vec::new());
+                for e in &evs[i + 1..] {
+                    fresh.write_event(e.borrow()).map_err(io_err)?;
+                }
+                let want = fresh.into_inner();
+                if sink.out[len_then..] != want[..] {
+                    return Err(format!(
+                        "after the sink refused a write during event {}, the events written afterwards arrived as {:?} instead of {:?}",
+                        i,
+                        show(&sink.out[len_then..]),
+                        show(&want)
+                    ));
+                }
+                loc.sink_failures += 1;
+            }
         }
     }
     // path 3 / 4: element writers
@@ -965,6 +1005,7 @@ fn flush(ctx: &mut Ctx, loc: &Local) {
     ctx.add("texts_read_back", loc.texts);
     ctx.add("bytes_written", loc.bytes_written);
     ctx.add("sink_short_write_calls", loc.short_writes);
+    ctx.add("sink_failures_survived", loc.sink_failures);
     ctx.add("builder_indented_with_new_line", loc.builder_newlines);
 }
 
